@@ -200,8 +200,8 @@ struct XPrint : Engine {
 
     void prealloc_sweep(cJSON* t, const std::string base[2]) {
             ctr().nontrivial++;
-            for (int fmt = 0; fmt < 2; fmt++) {
-                const std::string& B = base[fmt]; size_t Ln = B.size(); bool prev_ok = false; int first_ok = -1;
+            for (int fi = 0; fi < 4; fi++) { const int fmt = fi == 2 ? 4 : fi == 3 ? -1 : fi;   // any non-zero format flag means formatted
+                const std::string& B = base[fmt ? 1 : 0]; size_t Ln = B.size(); bool prev_ok = false; int first_ok = -1;
                 std::vector<size_t> ns; if (Ln <= 400) for (size_t n = 0; n <= Ln + 16; n++) ns.push_back(n); else { for (size_t n = 0; n <= 40; n++) ns.push_back(n); for (size_t n = 230; n <= 290; n++) ns.push_back(n); for (size_t n = Ln - 30; n <= Ln + 16; n++) ns.push_back(n); }
                 for (size_t n : ns) {
                     uint8_t* buf = gm.rw + gm.size - n;
